@@ -9,7 +9,12 @@ let regs : region array = Array.make nreg rgn_empty
 let rect_s ((((x1, y1), x2), y2) : rect) =
   Printf.sprintf "%d,%d,%d,%d" (int_of_z x1) (int_of_z y1) (int_of_z x2) (int_of_z y2)
 
-let iter_s rx ry r = String.concat ";" (List.map rect_s (rgn_iter rx ry r))
+(* the four orders are produced by the iterator MACHINE (one iter_next per sraRgnIteratorNext);
+   where it meets the C code's undefined behaviour (a band without spans) the line says so *)
+let iter_s rx ry r =
+  match rgn_iter_machine rx ry r with
+  | Some l -> String.concat ";" (List.map rect_s l)
+  | None -> "undefined:" ^ String.concat ";" (List.map rect_s (rgn_iter rx ry r))
 
 let obs (tag : string) (r : region) : string =
   Printf.sprintf "%s e=%s n=%d f=[%s] x=[%s] y=[%s] xy=[%s]" tag (b2s (rgn_is_empty r))
